@@ -1,4 +1,4 @@
-import ScenicModel.Model.Determinism
+import ScenicModel.Model.SampleOrder
 import ScenicModel.Gen.Determinism
 import Driver.Util
 /-! line protocol for the C15 model (seeded generation); the bracket flags and the activation
@@ -10,6 +10,7 @@ comparator are the ones regenerated from /repo.
       -> "ok=<0|1> scenes=<v,v,..;its> ... py=<consumed> np=<consumed>"
      requirement a:b:u is falsified iff (val a + val b) % 5 = 0; u = index of its activation flag or "-"
      (always active); the checker consumes both generators (3 and 2 elements per evaluated requirement)
+  initdeps | <lazy ids> | <argument ids>  -> "ok <_dependencies>" (Samplable.__init__ + LazilyEvaluable.__init__)
   setorder <size> <ids..>  -> ids in slot order
   deps | <instances> | <params> | <objects> | <behavior values> | <ids needing sampling> | <Samplable ids>
        { | <funcs fid:cell,cell.. with "/" between atomic propositions> | <binding values> | <canSee 0/1> <ego id or -> }
@@ -82,7 +83,8 @@ def showScene (p : List Val × Nat) : String :=
 
 def handleSample (py np order : List Nat) (tbl : Table) : String :=
   -- partial samples are not exposed by `sampleAll`; run the model node by node through visitList
-  let r := sampleAll listNext stubSem tbl (tbl.length + 1) order { py := py, np := np }
+  -- roots and children are iterated with the kinds regenerated from /repo (Model/SampleOrder.lean)
+  let r := sampleAllK listNext stubSem Scenic.Gen.detSampleKinds tbl (tbl.length + 1) order { py := py, np := np }
   let used := s!"py={py.length - r.2.py.length} np={np.length - r.2.np.length}"
   match r.1 with
   | none => s!"rej {used}"
@@ -142,6 +144,10 @@ def handle (ws : List String) : String :=
       handleDeps { instances := inst, params := params, objects := objs, reqs := reqs, behaviorVals := beh,
                    needs := needs, samplable := samp }
     | _, _, _, _, _, _, _ => "bad-op"
+  | [["initdeps"], lazy, args] =>
+    match nats lazy, nats args with
+    | some lazy, some args => "ok " ++ showIds (initDependencies Scenic.Gen.detSampleKinds lazy args)
+    | _, _ => "bad-op"
   | [["sample"], py, np, order, nodes] =>
     match nats py, nats np, nats order, nodes.mapM parseNode with
     | some py, some np, some order, some tbl => handleSample py np order tbl
